@@ -9,6 +9,7 @@ import (
 
 	"github.com/jamespfennell/gtfs/extensions"
 	gtfsrt "github.com/jamespfennell/gtfs/proto"
+	"github.com/jamespfennell/gtfs/verifhook"
 	"google.golang.org/protobuf/proto"
 )
 
@@ -261,6 +262,7 @@ func (opts *ParseRealtimeOptions) timezoneOrUTC() *time.Location {
 }
 
 func ParseRealtime(content []byte, opts *ParseRealtimeOptions) (*Realtime, error) {
+	verifhook.Gate("rt.begin")
 	// Work on a copy of the options so that the caller's value is never written to;
 	// it may be shared between concurrent calls.
 	optsCopy := *opts
@@ -281,6 +283,7 @@ func ParseRealtime(content []byte, opts *ParseRealtimeOptions) (*Realtime, error
 		result.CreatedAt = createdAt
 	}
 
+	verifhook.Gate("rt.prepass")
 	shouldSkip := make([]bool, len(feedMessage.GetEntity()))
 	for i, entity := range feedMessage.Entity {
 		if tripUpdate := entity.GetTripUpdate(); tripUpdate != nil {
@@ -300,6 +303,7 @@ func ParseRealtime(content []byte, opts *ParseRealtimeOptions) (*Realtime, error
 	vehiclesWithNoID := []*Vehicle{}
 	tripIDToVehicleWithNoID := map[TripID]*Vehicle{}
 	for i, entity := range feedMessage.Entity {
+		verifhook.Emit("rt.merge", i, shouldSkip[i], len(tripsById), len(vehiclesByID), len(vehiclesWithNoID), len(tripIDToVehicleID), len(result.Alerts))
 		if shouldSkip[i] {
 			continue
 		}
@@ -362,6 +366,8 @@ func ParseRealtime(content []byte, opts *ParseRealtimeOptions) (*Realtime, error
 		}
 	}
 
+	verifhook.Emit("rt.merged", len(feedMessage.Entity), len(tripsById), len(vehiclesByID), len(vehiclesWithNoID), len(tripIDToVehicleID), len(result.Alerts))
+	verifhook.Gate("rt.resolve")
 	for tripID, trip := range tripsById {
 		if vehicleID, ok := tripIDToVehicleID[tripID]; ok {
 			trip.Vehicle = vehiclesByID[vehicleID]
